@@ -96,6 +96,39 @@ def gen_tree(rng, roots, max_entries=30, max_depth=4, kinds=None, adversarial=0.
     return {"nodes": nodes}
 
 
+ZIPLIKE = (".zip", ".jar", ".war", ".ear")
+
+
+def zipify(rng, world, keep=(), p=0.35):
+    """For runs with the `archives` option: some directories get archive-like names (an exploded app.war/), and no
+    ordinary file keeps one (a non-archive with an archive name is a legitimately reportable oddity)."""
+    ren = {}
+    allmap = {}
+    taken = {n["path"] for n in world["nodes"]}
+    for n in world["nodes"]:
+        path = n["path"]
+        par, _, name = path.rpartition("/")
+        par = ren.get(par, par)
+        new = name
+        if "/" in path and path not in keep:
+            if n["type"] == "dir" and rng.random() < p and not any(0xDC80 <= ord(c) <= 0xDCFF for c in name):
+                new = name + rng.choice(ZIPLIKE + (".ZIP",))
+            elif n["type"] != "dir" and name.lower().endswith(ZIPLIKE):
+                new = name[:-1] + "_"
+        newpath = (par + "/" + new) if par else new
+        if new != name and newpath in taken:
+            newpath = (par + "/" + name) if par else name
+        taken.add(newpath)
+        if n["type"] == "dir":
+            ren[path] = newpath
+        allmap[path] = newpath
+        n["path"] = newpath
+    for n in world["nodes"]:
+        if n["type"] == "hardlink":
+            n["target"] = allmap.get(n["target"], n["target"])
+    return allmap
+
+
 def children_map(world):
     ch = {"": []}
     for n in world["nodes"]:
